@@ -163,14 +163,19 @@ CLAIMED = {
              "stacks of the bounded operators, decomposition of bounded since/until) are mirrored statement by statement "
              "(Rtamt/Dense/Alg.lean) and proved, for every supported formula over well-formed signals that start at 0, to return a "
              "list with strictly increasing time stamps that starts at the beginning of the domain and equals rhoD at every time of "
-             "the domain, raising nothing (C04_alg_eq_rhoD_partial). Correspondence: the real dense offline evaluate() vs the mirror "
+             "the domain, raising nothing (C04_alg_eq_rhoD_partial). Source -> M-alg: intersection.py and the dense offline "
+             "ast_visitor.py are translated from the source on every run (harness/py2lean.py -> GeneratedDense.lean, sub-language "
+             "Rtamt/Py/Dn.lean) and genD_eval proves that the translated visitor returns - lists and exceptions, for all inputs, with "
+             "explicit fuel bounds for its while loops - what the mirror returns; C04_translated_eq_rhoD_partial states C04 on the "
+             "run of the translated code. Correspondence: the real dense offline evaluate() vs the translated code and the mirror "
              "sample by sample (same stamps, same doubles) and vs rhoD as step functions (all break-points of both sides, "
              "bound-shifted input break-points and mid-points), non-decreasing time stamps, start of the domain.",
-        note="Lean kernel + standard axioms; the mirror of the list algorithms is hand-written and tied to the code by exact "
-             "correspondence of the returned lists (no translator); until/since are read with the left operand on the closed "
+        note="Lean kernel + standard axioms; trusted: the syntactic translator, the Lean semantics of the Python subset (two sorts "
+             "of floats: time stamps and values; exercised against the real monitor on every run) and the hand-written visitor "
+             "dispatch (RunDn.lean); until/since are read with the left operand on the closed "
              "interval up to the witness (what the monitors implement); the theorem assumes signals starting at 0 - known finding "
              "F37 (signals not starting at 0) is excluded by region for the comparison with rhoD, not for the mirror.",
-        technique="Lean 4 proof (step-function theory: finite folds = LUB/GLB over real windows; loop invariants of the merge and of the segment stacks; structural induction) + differential correspondence against the mirror and the proved semantics",
+        technique="Lean 4 proof (translated source = mirror by symbolic execution of the deep embedding with loop invariants; step-function theory: finite folds = LUB/GLB over real windows; loop invariants of the merge and of the segment stacks; structural induction) + differential correspondence against the translated code, the mirror and the proved semantics",
         design="DESIGN.md §4 C04"),
     "C05": dict(
         text="Partial (fragment). Machine-checked (Lean 4): (1) the dense semantics of a past formula at t depends on the input "
